@@ -137,9 +137,9 @@ def run(check: Check) -> None:
                 with_a = formula.count("a:") > 0
                 cl = []
                 for r, i in enumerate(kept):
-                    li = lv.index(rows[i])
+                    li = lv.index(rows[i]) if rows[i] in lv else None
                     for c, j in enumerate(cat_cols):
-                        w = q(want[li, c])
+                        w = q(want[li, c]) if li is not None else z3.RealVal(0)  # a value outside the nominated levels: zero row
                         if with_a:
                             w = w * z3.Real(f"a{i}")
                         d = lift(cells[r, j]) - w
